@@ -83,7 +83,7 @@ func checkC10(w *Workload, emit func(k int, mode string, kind byte)) *Outcome {
 var c10Fixtures = []string{"tiny", "flat24", "nest"}
 
 func TestC10(t *testing.T) {
-	cfg := wlCfg{fixtures: fixturesFromEnv(c10Fixtures), maxRecs: envInt("VERIF_MAXRECS", 12), gen: vt.DefaultGen}
+	cfg := wlCfg{fixtures: fixturesFromEnv(c10Fixtures), maxRecs: envInt("VERIF_MAXRECS", 12), gen: vt.DefaultGen, noPatterns: true}
 	cfg.gen.MaxList = 3
 	rapid.Check(t, func(t *rapid.T) {
 		w := genWorkload(t, cfg)
